@@ -3,7 +3,7 @@ import Rc.Drv.C13
 /-! C04 line protocol (model side).
 
 value   origin:N | aspath:H | nexthop:N | med:N | localpref:N | atomic | aggregator:ASN:ADDR |
-        communities:C.C.C (request) / communities:LEN:EXT:C.C.C (reply) | originator:N |
+        communities:C.C.C | originator:N |
         clusterlist:N.N | extcomm:HEX.HEX | as4path:H | as4aggregator:ASN:ADDR | connector:N |
         aspathlimit:UB:ASN | ipv6extcomm:HEX.HEX | largecomm:HEX.HEX | otc:N | attrset:ASN:HEX | reserved:HEX
         (H = hop path as in C13; 32-bit numbers in decimal; records in hex)
@@ -23,7 +23,7 @@ def showValue : TypedAttr → String
   | .localPref n => s!"localpref:{n}"
   | .atomicAggregate => "atomic"
   | .aggregator asn addr => s!"aggregator:{asn}:{addr}"
-  | .communities l => s!"communities:{l.len}:{if l.extended then 1 else 0}:{showNats l.cs}"
+  | .communities l => s!"communities:{showNats l.cs}"
   | .originatorId a => s!"originator:{a}"
   | .clusterList ids => s!"clusterlist:{showNats ids}"
   | .extCommunities cs => s!"extcomm:{showRecs cs}"
@@ -94,7 +94,7 @@ def handle (ws : List String) : String :=
         match decAttr true bs with
         | .ok (d, r) =>
           let same := match d with
-            | .ok (.typed a') => r.isEmpty && a' == a
+            | .ok (.typed a') => r.isEmpty && a'.eqRust a      -- Rust `back == pa`
             | _ => false
           s!"ok {hexOrDash bs} len={n} dec={showDecoded d} same={bstr same}"
         | _ => s!"ok {hexOrDash bs} len={n} dec=err same=false"
